@@ -254,10 +254,7 @@ static int cmd_compile(int argc, char **argv) {
 }
 
 /* ---------------- run loop ---------------- */
-static Family *families[] = { &fam_daemon,
-#ifdef HAVE_FAM_COP
-    &fam_cop,
-#endif
+static Family *families[] = { &fam_daemon, &fam_cop,
 #ifdef HAVE_FAM_STORE
     &fam_store,
 #endif
